@@ -447,6 +447,11 @@ def step (line : String) : String :=
   | ["wallet", w] => orBad do
       let (_, w) ← unwallet w
       pure (optS walletS w)
+  -- the FIRST wallet, looked at after a second one has been created (a wallet is a value in the model)
+  | ["wallet_held", w, w2] => orBad do
+      let (_, w) ← unwallet w
+      let _ ← unwallet w2
+      pure (optS walletS w)
   -- C05
   | ["addr", kind, key, t] => orBad do
       let key ← unhex key; let t ← unbool t
